@@ -191,6 +191,8 @@ def _deep_same(a, b):
 # ---- shape-symbolic supplement -----------------------------------------------------------------
 CT = [(URIRef("urn:a"), URIRef("urn:p"), URIRef("urn:b")), (BNode("x"), URIRef("urn:p"), Literal("l", lang="en")),
       (URIRef("urn:b"), URIRef("urn:q"), BNode("x"))]
+# a typed literal whose datatype lives in a namespace that nothing else uses (prefix generation while writing)
+TYPED = (URIRef("urn:a"), URIRef("urn:q"), Literal("v", datatype=URIRef("http://dt.example/ns#T")))
 FORMATS_DS = ["nquads", "trig", "trix", "json-ld", "hext", "patch"]
 FORMATS_G = ["nt", "turtle", "longturtle", "n3", "xml", "pretty-xml", "json-ld", "hext"]
 
@@ -209,6 +211,8 @@ def body_ser(desc, F, *args):
                 else:
                     ds.add((t[0], t[1], t[2], NAMES[gn]))
             k += 1
+    if desc.get("typed"):
+        ds.add((TYPED[0], TYPED[1], TYPED[2], NAMES["g1"]))
     idents = [NAMES["d"], NAMES["g1"], NAMES["b1"], NAMES["e"]]
     before = snapshot(store, idents)
     what = desc["what"]
@@ -245,6 +249,11 @@ def body_ser(desc, F, *args):
         a2 = "exception %s" % type(e).__name__
     if what in ("isomorphic", "canonical", "diff") and a1 != a2:
         return "%s gave two different answers" % what
+    if (what.startswith("ds:") or what.startswith("g:")) and isinstance(a1, str) and isinstance(a2, str):
+        # the order of statements / graph blocks may legitimately vary (set iteration order, the default graph being
+        # registered lazily by the first run): compare the documents as multisets of lines
+        if sorted(a1.splitlines()) != sorted(a2.splitlines()):
+            return "serialising twice (%s) gave two different documents for the unchanged data" % what
     r = same_snapshot(before, snapshot(store, idents))
     if r:
         return "second %s changed the data: %s" % (what, r)
@@ -365,6 +374,9 @@ def obligations(tier, seed):
                 continue
             obs.append(dict(oid="ser/%s/%s" % ("union" if union else "plain", what), family="purity-ser",
                             desc={"union": union, "what": what}, sig=[("b%d" % i, "b") for i in range(9)], budget=400))
+            if not union and (what.startswith("ds:") or what.startswith("g:")):
+                obs.append(dict(oid="ser/typed/%s" % what, family="purity-ser",
+                                desc={"union": False, "what": what, "typed": True}, sig=[("b%d" % i, "b") for i in range(9)], budget=400))
     return obs
 
 
